@@ -611,6 +611,29 @@ def shrink(case):
             yield [inner, st[:i] + [None] + st[i + 1:]]
 
 
+# ---------------------------------------------------------------- the source-level tie (tools/py2coq_c20.py)
+
+
+def extra_obligations(tier):
+    """ensure_next, NextResponse.from_app with its nested start_response closure, and the wsgi closure of
+    middleware(handler)(app) of baize/wsgi/middleware.py are translated from the source in BAIZE_REPO as it is now
+    (tools/py2coq_c20.py: the inner application is the list of what it does, the closure's nonlocal variables are an explicit
+    record threaded through that list, int and Headers are arguments), and coqc re-checks C20/Translated.v against the fresh
+    definitions: the translated closure raises iff exc_info is given once relayed; ensure_next and from_app are
+    Acts.capture; the rest of the iteration is Acts.tail_acts; the whole layer is Acts.mw_w, for every application, every
+    int and every action of the model.  The same for baize/asgi/middleware.py (C20/TranslatedAsgi.v: the send closure of
+    from_app, from_app and the asgi closure; awaiting the application is Acts.collect_a and the whole layer Acts.mw_a for the
+    applications PyLibAsgi.wf_a speaks about — no body event after the last one, the stream closed at the end; outside of it the
+    code and the model differ, stated as theorems).  C20/PyLib.v's status.split(" ")[0] is compared with the interpreter.  A
+    source the translator refuses is not applicable (None)."""
+    import importlib.util
+    import os
+    spec = importlib.util.spec_from_file_location("py2coq_c20", os.path.join(core.VERIF, "tools", "py2coq_c20.py"))
+    py2coq_c20 = importlib.util.module_from_spec(spec)
+    spec.loader.exec_module(py2coq_c20)
+    return py2coq_c20.obligations(core.REPO, core.VERIF)
+
+
 if __name__ == "__main__":
     import sys
     core.main(sys.modules[__name__])
